@@ -102,4 +102,17 @@ PROPS = {
             {"name": "c17.bbc-short", "pkg": BBC, "test": "TestVerifC17FragmentShort"},
         ],
     },
+    "C11": {
+        "level": "exploration",
+        "technique": "exhaustive (length, segment size) grid + rapid property tests over back-to-back TransferManagers + enumerated peer faults; validity predicate over the segment train and 'success => delivered once, identical'",
+        "level_text": "All (L, m) pairs for L up to 160/400 are enumerated, so every divisor case m | L occurs; real bundles (padded to multiples of m) are transferred between two managers, also concurrently in both directions; a scripted peer enumerates every position for stopped acknowledgements, refusals, wrong acknowledgements and manager shutdown.",
+        "level_note": "the 'stops acknowledging' fault relies on the implementation's own 10 s timeout; a missing hand-up is awaited 5 s (expected latency: microseconds). TCP/WebSocket sockets are only exercised in the thorough tier.",
+        "assumptions": ["segment size >= 1 (size 0 belongs to C04)"],
+        "units": [
+            {"name": "c11.grid", "pkg": UTILS, "test": "TestVerifC11Grid", "shards_t": 8},
+            {"name": "c11.bundle-trains", "pkg": UTILS, "test": "TestVerifC11BundleTrains", "shards_t": 8},
+            {"name": "c11.managers", "pkg": UTILS, "test": "TestVerifC11Managers", "shards_t": 16, "shards_q": 4},
+            {"name": "c11.faults", "pkg": UTILS, "test": "TestVerifC11Faults", "shards_t": 4},
+        ],
+    },
 }
